@@ -161,6 +161,9 @@ func init() {
 			web("harness_http", "webh.H_Http", []string{"request_done"}, webDesc("net/http")),
 			web("harness_gin", "webh.H_Gin", []string{"request_done"}, webDesc("gin (inside the real gin engine)")),
 			web("harness_gin", "webh.H_GinConc", []string{"both_served"}, webConcDesc),
+			web("harness_chi", "webh.H_Chi", []string{"request_done"}, webDesc("chi (net/http handler chain)")),
+			web("harness_echo", "webh.H_Echo", []string{"request_done"}, webDesc("echo (inside a real echo instance; handler may also return an error)")),
+			web("harness_fiber", "webh.H_Fiber", []string{"request_done"}, webDesc("fiber (inside a real fiber app on a fasthttp RequestCtx, served like the fasthttp server: handler, then release of user values; optionally fiber's own recover middleware in front; scope in Locals and in the user context)")),
 		}},
 	)
 	hc := h("cont.H_Conc", conc(1), conc(1), []string{"both_done"}, 10, concDesc)
